@@ -224,6 +224,7 @@ class Ctx(object):
         self.extra_trusted = []
         self.partial_theorems = []
         self.findings = load_findings()
+        self.level = "proof"
 
     # -- bookkeeping
     def count(self, key=None, nontrivial=True, branch=None):
@@ -355,7 +356,7 @@ def finish(ctx, lean_info):
         "property_id": ctx.pid,
         "tier": ctx.tier,
         "seed": ctx.seed,
-        "level": "proof",
+        "level": ctx.level,
         "coverage": coverage,
         "assumptions": ctx.assumptions,
         "wall_s": round(wall, 2),
